@@ -38,6 +38,7 @@ INTS = {
     torch.int8: (8, True),
     torch.uint8: (8, False),
     torch.int16: (16, True),
+    torch.uint16: (16, False),
     torch.int32: (32, True),
     torch.int64: (64, True),
 }
